@@ -40,8 +40,9 @@ class C13(Check):
         "attribute vector must equal the initial one component-wise (unsat query)."
     )
     rule = (
-        "one case = one (operation shape, path, fault position) query; the fault position (system-call index, before/after effect, "
-        "exception kind) is solver-owned; non-trivial = a solver call was needed; distinct = distinct (shape, decision prefix, claim)"
+        "one case = one (operation shape, path, fault position) obligation; the fault position (system-call index, before/after effect, "
+        "exception kind) is solver-owned; non-trivial = the path contains at least one solver-made decision (fault position, timing) "
+        "or the claim needed a solver call; distinct = distinct (shape, decision prefix, claim)"
     )
     assumptions = [
         "termios/pty model harness/pty_model.py: tcgetattr returns copies, tcsetattr stores a copy",
